@@ -60,6 +60,10 @@ func main() {
 		"a~/b", "~\\/x", "~/a/~root/", "~root/$a", "~a/*", "~/*", "~/ a", "~/'", "~/\"", "~/\n", "~", "~~/", "~/~", " ~/a", "~root\n/x", "~:/x", "~a:~b/"} {
 		inputs = append(inputs, t)
 	}
+	// very many special characters (whatever a fixed-size scratch area could hold)
+	for _, n := range []int{15, 16, 17, 18, 31, 32, 33, 64, 65, 200} {
+		inputs = append(inputs, strings.Repeat("'", n), strings.Repeat("a'", n), strings.Repeat("'\\", n)+"; a", strings.Repeat("$a ", n), "~/"+strings.Repeat("'", n))
+	}
 	rng := rand.New(rand.NewSource(vio.Seed()))
 	// harmless vocabulary: no letters other than a/b, so no command or builtin name can be spelled
 	pieces := []string{"'", "''", "\"", "\\", "$", "$a", "${a}", "$(a)", "`", "`a`", " ", "  ", "\n", "\t", ";", "&", "&&", "|", "||",
